@@ -30,6 +30,7 @@ import (
 	"github.com/kubewharf/kubebrain/pkg/backend/tso"
 	"github.com/kubewharf/kubebrain/pkg/metrics"
 	"github.com/kubewharf/kubebrain/pkg/storage"
+	"github.com/kubewharf/kubebrain/pkg/verifhook"
 )
 
 // retry state
@@ -147,6 +148,7 @@ func (a *asyncFifoRetryImpl) Run(ctx context.Context) {
 		case <-ctx.Done():
 			return
 		case <-ticker.C:
+			verifhook.Yield("retry.tick")
 		retryLoop:
 			for {
 				breakLoop := a.retry(ctx)
